@@ -354,7 +354,14 @@ class Runner(object):
         # the run has drained: operator commands / faults scheduled for a
         # later step are issued now, one at a time
         if self.pending_ops or self.pending_faults:
-            nxt_ops = self.pending_ops[:1] or self.pending_faults[:1]
+            # the next command - and the ones scheduled for the very same
+            # step with it: they are meant to be in flight together
+            if self.pending_ops:
+                s0 = self.pending_ops[0].get('at_step', 0)
+                nxt_ops = [o for o in self.pending_ops
+                           if o.get('at_step', 0) == s0]
+            else:
+                nxt_ops = self.pending_faults[:1]
             for o in nxt_ops:
                 o['at_step'] = min(o.get('at_step', 0), sim.step)
             self._inject_due(sim)
